@@ -441,6 +441,27 @@ func runC08(r *Run) {
 	} else {
 		r.Bad("R10", "anchor/evm Keeper.SetAccount", "", "not found")
 	}
+	r.Rule("R11", "PATH.selfdestruct-spares-vesting-accounts: a clawback vesting account can carry code (it implements EthAccountI; code can be deployed to its address), so SELFDESTRUCT can reach the EVM keeper's DeleteAccount for it. RemoveAccount is reachable there only over the edge on which the stored account is NOT a vesting account (a failed assertion to vesting exported.VestingAccount / *ClawbackVestingAccount) — deleting the account deletes its lock-up and vesting schedule, its delegation tracking and its funder: coins that come back from unbonding later are free")
+	if da, ok := P.FnOK("(*x/evm/keeper.Keeper).DeleteAccount"); ok {
+		notVesting, _ := guardPassEdges(da, func(cond ssa.Value) (bool, bool) {
+			ex, ok := cond.(*ssa.Extract)
+			if !ok || ex.Index != 1 {
+				return false, false
+			}
+			ta, ok := ex.Tuple.(*ssa.TypeAssert)
+			if !ok {
+				return false, false
+			}
+			n := namedName(deref(ta.AssertedType))
+			return false, n == "VestingAccount" || n == "ClawbackVestingAccount"
+		})
+		isRemove := isCallMatching(func(ci CallInfo) bool { return ci.Name == "RemoveAccount" })
+		w := PathQuery{Fn: da, Target: isRemove, DelEdge: edgeSet(notVesting)}.Search()
+		r.Check(w == nil && len(notVesting) > 0, "R11", fnID(da)+"#spares-vesting-accounts", P.Pos(fnPos(da)), "RemoveAccount only where the account is not a vesting account",
+			"the EVM keeper removes whatever account sits at a self-destructed address, a ClawbackVestingAccount with code included: its schedule disappears with it, and everything that was locked or unvested (delegated coins returning from unbonding, other denominations) is free", P.witness(w)...)
+	} else {
+		r.Bad("R11", "anchor/evm Keeper.DeleteAccount", "", "not found")
+	}
 	r.Rule("R9", "PATH.merge-reads-the-old-schedule (same rule code as C09 R9): in addGrant no store into the account's StartTime, EndTime, LockupPeriods or VestingPeriods can precede a DisjunctPeriods call — a merge that reads the already updated start re-bases the account's existing vesting events earlier for a back-dated grant, so LockedCoins falls below the coins that are really unvested")
 	checkMergeBeforeUpdate(r, "R9")
 }
